@@ -164,25 +164,11 @@ func (it *indexedMessageIterator) parseSummarySection() error {
 			if err != nil {
 				return fmt.Errorf("failed to parse chunk index: %w", err)
 			}
-			// if the chunk overlaps with the requested parameters, load it
+			// if the chunk overlaps with the requested parameters, consider it. Whether it holds
+			// any selected channel is decided once the whole summary has been read: the summary
+			// groups may come in any order, so the channel records may follow the chunk indexes.
 			if (it.end == 0 && it.start == 0) || ((idx.MessageStartTime < it.end || it.noEnd) && idx.MessageEndTime >= it.start) {
-				// Can't infer absence of a topic if there are no message indexes, and there is
-				// nothing to infer when no topic restriction was requested (as for Info, which
-				// must list every chunk index even if the summary repeats no channel records).
-				if len(idx.MessageIndexOffsets) == 0 || len(it.topics) == 0 {
-					it.chunkIndexes = append(it.chunkIndexes, idx)
-					continue
-				}
-				// Otherwise, scan the message index offsets and see if we are
-				// selecting it. ChannelInfo is set only for selected topics.
-				// NB: It would be nice if we had a more compact/direct
-				// representation of what channels are in a chunk.
-				for chanID := range idx.MessageIndexOffsets {
-					if it.channels.Get(chanID) != nil {
-						it.chunkIndexes = append(it.chunkIndexes, idx)
-						break
-					}
-				}
+				it.chunkIndexes = append(it.chunkIndexes, idx)
 			}
 		case TokenStatistics:
 			stats, err := ParseStatistics(record)
@@ -191,6 +177,27 @@ func (it *indexedMessageIterator) parseSummarySection() error {
 			}
 			it.statistics = stats
 		case TokenFooter:
+			if len(it.topics) > 0 {
+				// ChannelInfo is set only for selected topics: drop the chunks whose message
+				// indexes show that they hold no selected channel.
+				// NB: It would be nice if we had a more compact/direct
+				// representation of what channels are in a chunk.
+				selected := it.chunkIndexes[:0]
+				for _, idx := range it.chunkIndexes {
+					// Can't infer absence of a topic if there are no message indexes.
+					keep := len(idx.MessageIndexOffsets) == 0
+					for chanID := range idx.MessageIndexOffsets {
+						if it.channels.Get(chanID) != nil {
+							keep = true
+							break
+						}
+					}
+					if keep {
+						selected = append(selected, idx)
+					}
+				}
+				it.chunkIndexes = selected
+			}
 			// sort chunk indexes in the order that they will need to be loaded, depending on the specified
 			// read order.
 			switch it.order {
